@@ -118,6 +118,17 @@ Theorem c01_spec_rejected_unchanged :
 Proof. exact spec_rejected_unchanged. Qed.
 Print Assumptions c01_spec_rejected_unchanged.
 
+(* a string or string-array index cannot hold the empty string (the file store refuses the empty key when the
+   index is flushed): an insert batch that carries one at an indexed path is rejected as a whole *)
+Theorem c01_spec_empty_key_rejected :
+  forall (sc : schema) (ps : list (uuid * doc)) (s : store) (p : uuid * doc) (path : bytes) (cs : bool),
+    In p ps ->
+    (In (path, IStr cs) sc /\ prop_value path (snd p) = QFound (VStr [])) \/
+    (In (path, IStrArr cs) sc /\ exists l, prop_value path (snd p) = QFound (VArr l) /\ In (VStr []) l) ->
+    exists es, es <> [] /\ insert_spec sc ps s = (s, SErr es).
+Proof. exact spec_empty_key_rejected. Qed.
+Print Assumptions c01_spec_empty_key_rejected.
+
 (* ---- the checker that judges dumped buckets is sound ---- *)
 Theorem c01_dump_checker_sound : forall d : dump, dump_inv_b d = true -> DumpInv d.
 Proof. exact dump_checker_sound. Qed.
@@ -218,3 +229,10 @@ Proof.
   - now apply Hm.
   - destruct Hp as [<-|[<-|[]]]; discriminate.
 Qed.
+
+(* hypothesis of c01_spec_empty_key_rejected: tags = ["a"; ""] under a string-array index on "tags" *)
+Example c01_example_empty_key :
+  insert_spec [([116; 97; 103; 115], IStrArr false)] [(ua, [([116; 97; 103; 115], VArr [VStr [97]; VStr []])])] [] = ([], SErr [ERR_TYPE]) /\
+  insert_spec [([116; 97; 103; 115], IStrArr false)] [(ua, [([116; 97; 103; 115], VArr [VStr [97]; VStr [98]])])] [] =
+    ([(ua, [([116; 97; 103; 115], VArr [VStr [97]; VStr [98]])])], SOk []).
+Proof. vm_compute. split; reflexivity. Qed.
